@@ -10,7 +10,10 @@ export GOFLAGS=-mod=mod GOPROXY=off GOSUMDB=off GOTOOLCHAIN=local
 tmp=$(mktemp -d /dev/shm/seed-XXXXXX)
 trap 'git -C /repo worktree remove --force $tmp/wt >/dev/null 2>&1; rm -rf $tmp' EXIT
 git -C /repo worktree add -q --detach $tmp/wt ${SEED_BASE:-HEAD} || exit 2
-if ! git -C $tmp/wt apply $S/patch.diff; then echo "$id: patch does not apply"; exit 2; fi
+if ! git -C $tmp/wt apply $S/patch.diff 2>/dev/null; then
+  # the patch was written against an earlier commit: try a three-way merge onto the current tree
+  if git -C $tmp/wt apply -3 $S/patch.diff >/dev/null 2>&1 && ! grep -rqs '^<<<<<<< ' $tmp/wt --include=*.go; then echo "$id: applied by three-way merge"; git -C $tmp/wt reset -q; else echo "$id: patch does not apply"; exit 2; fi
+fi
 ( cd $tmp/wt && go build ./... ) || { echo "$id: does not compile"; exit 2; }
 t=$( cd $tmp/wt && go test -vet=off -count=1 ./... 2>&1 ); if echo "$t" | grep -q "^FAIL\|^---"; then echo "$id: repository tests FAIL with the change"; echo "$t" | tail -5; exit 2; fi
 echo "$id: compiles, repository tests pass"
